@@ -241,43 +241,38 @@ def self_test(cases, failing, wd, timeout):
 # ------------------------------------------------------------------------------------------------------
 
 def evaluate(summary, by_id, verdict, name):
+    """Every failing behaviour is either covered by an OPEN known finding of C13 (its signature - a predicate
+    over the behaviour - holds) or a violation. `fixed` entries suppress nothing."""
     open_kf = [f for f in L.load_known_findings()
                if PID in f.get("properties", []) and f.get("status") == "open"]
-    bad = []
-    items = [dict(m, _panic=False) for m in summary["mismatches"]] + \
-            [dict(m, _panic=True, what="panic in the code under test: " + m.get("panic", "")) for m in summary["panics"]]
-    for m in items:
-        case = by_id.get(m.get("id"))
-        kf = None
-        if case is not None:
-            for f in open_kf:
-                pred = SIGNATURES.get(f.get("signature"))
-                if pred and pred(case):
-                    kf = f
-                    break
+    detail = {}
+    for m in summary["mismatches"]:
+        detail.setdefault(m.get("id"), m)
+    for m in summary["panics"]:
+        detail.setdefault(m.get("id"), dict(m, what="panic in the code under test: " + m.get("panic", "")))
+    failing = list(summary.get("failed_ids", []))
+    if len(failing) < len(detail) or (summary["mismatch_count"] + summary["panic_count"] > 0 and not failing):
+        raise L.ToolError("replayer summary is inconsistent (failing ids missing)")
+    bad, known = [], collections.Counter()
+    for i in failing:
+        case = by_id.get(i)
+        if case is None:
+            raise L.ToolError(f"replayer reported an unknown case id {i}")
+        kf = next((f for f in open_kf if SIGNATURES.get(f.get("signature"), lambda c: False)(case)), None)
         if kf:
-            verdict.known_finding(f"{kf['id']}: {m.get('what')} ({case['kind']})")
+            known[kf["id"]] += 1
+            if known[kf["id"]] == 1:
+                what = detail.get(i, {}).get("what", "disagreement with the as-designed spec")
+                verdict.known_finding(f"{kf['id']}: {what} ({case['kind']})")
         else:
-            bad.append(m)
-    listed = len(summary["mismatches"]) + len(summary["panics"])
-    total = summary["mismatch_count"] + summary["panic_count"]
-    if total > listed:
-        # beyond the listed ones: attribute through the failing ids
-        ids = summary.get("failed_ids", [])
-        unattributed = [i for i in ids
-                        if not any(SIGNATURES.get(f.get("signature"), lambda c: False)(by_id[i])
-                                   for f in open_kf if i in by_id)]
-        if unattributed or len(ids) < total:
-            bad.append({"what": "further disagreements beyond the listed ones", "count": total - listed,
-                        "ids": unattributed[:20]})
+            bad.append(i)
+    if known:
+        L.log(f"[c13] failing behaviours covered by open known findings: {dict(known)}")
     if bad:
-        ids = [i for i in summary.get("failed_ids", []) if i in by_id][:50]
-        for m in bad:
-            if m.get("id") in by_id and m["id"] not in ids:
-                ids.append(m["id"])
-        path = L.save_replay(PID, name, "".join(json.dumps(by_id[i]) + "\n" for i in ids))
-        first = {k: v for k, v in bad[0].items() if not k.startswith("_")}
-        verdict.violation(path, f"{len(bad)} disagreement(s) with the as-designed spec; first: {json.dumps(first)[:1200]}")
+        path = L.save_replay(PID, name, "".join(json.dumps(by_id[i]) + "\n" for i in bad[:50]))
+        first = next((detail[i] for i in bad if i in detail), {"id": bad[0]})
+        verdict.violation(path, f"{len(bad)} behaviour(s) disagree with the as-designed spec; first: "
+                                f"{json.dumps(first)[:1200]}")
     return len(bad)
 
 
@@ -357,15 +352,17 @@ def main(tier, seed, replay):
 
     # ---- 2. cases ---------------------------------------------------------------------------------------
     rng = random.Random(seed)
-    cases, seen = [], set()
+    cases, keyed = [], {}
     for ln in lines:
         key = hashlib.blake2b(json.dumps([ln["kind"], ln["cp"], ln["steps"]], sort_keys=True).encode(),
                               digest_size=16).digest()
-        if key in seen:
-            continue
-        seen.add(key)
+        keyed.setdefault(key, ln)
+    # TLC prints in a worker-dependent order: a canonical order keeps the seeded choices below reproducible
+    for key in sorted(keyed):
+        ln = keyed[key]
         cases.append(dict(id=len(cases), kind=ln["kind"], cp=ln["cp"],
                           auth="check" if ln["kind"] == "phash" else "none", steps=ln["steps"], src=ln["src"]))
+    del keyed, lines
     # the client kinds also under the default ProtocolCheck (the hash trigger rides along): a seeded sample,
     # all F13 trigger histories first
     cand = [c for c in cases if c["kind"] in ("cev", "ctr", "ctt") and c["cp"]]
